@@ -196,6 +196,14 @@ def _():
         if not r["errors"]: return False
     return True
 
+@w("D40")
+def _():
+    from poetry.core.packages.dependency import Dependency
+    d = Dependency.create_from_pep_508("Foo_Bar !=1.0.0.1,==1.*")
+    t = d.to_pep_508()
+    d2 = Dependency.create_from_pep_508(t)
+    return "||" not in t and d2.constraint.allows(V("1.5")) and not d2.constraint.allows(V("1.0.0.1"))
+
 if __name__ == "__main__":
     ids = sys.argv[1:] or list(W)
     bad = 0
